@@ -5,7 +5,7 @@ from .model import Field, Variant, Program, spell_param, ISIZE_MIN
 KANI_TYS = ["u8", "f32", "bool", "i8", "u16"]
 NAMES = ["a", "b", "c", "d", "e", "f"]
 # hostile-but-legal identifiers that coincide with names the generated code uses
-HOSTILE = ["other", "state", "f", "builder", "source", "_0", "v", "r"]
+HOSTILE = ["other", "state", "f", "builder", "source", "_0", "v", "r#fn"]
 
 
 class Counter:
@@ -1261,6 +1261,23 @@ def c14(tier, seed):
         for j, r2 in enumerate(val_forms("rank", "-4")):
             fs = [Field(None, "T0", attrs=["Ord(%s)" % r1], ord={"rank": 3}), Field(None, "T0", ord={}), Field(None, "T1", attrs=["Ord(%s)" % r2], ord={"rank": -4})]
             out.append(ord_program(c.pid(), "struct", "S", [Variant(None, "tuple", fs)], "both", ["T0", "T1"], i + j, "C14 rank forms `%s` `%s`" % (r1, r2), prop="C14"))
+    # ---- explicit "not ignored" spellings: the field must still be compared / hashed / shown
+    for j, neg in enumerate(["%s(ignore = false)", "%s(ignore(false))", "%s = true"]):
+        fs = [Field("a", "T0", attrs=[neg % "PartialEq"], eq={}), Field("b", "T1", attrs=["PartialEq(ignore)"], eq={"ignore": True}), Field("c", "T0", eq={})]
+        add(Program(c.pid(), "struct", "S", [Variant(None, "named", fs)], ["PartialEq"], generics=["T0", "T1"], inst={"T0": "u8", "T1": "f32"},
+                    focus={"PartialEq"}, note="C14 PartialEq not-ignored spelling `%s`" % neg))
+        for md, car in (("both", "Ord"), ("po", "PartialOrd")):
+            fs = [Field("a", "T0", attrs=[neg % car], ord={}), Field("b", "T1", attrs=["%s(ignore)" % car], ord={"ignore": True}), Field("c", "T0", ord={})]
+            out.append(ord_program(c.pid(), "struct", "S", [Variant(None, "named", fs)], md, ["T0", "T1"], j, "C14 %s not-ignored spelling `%s`" % (car, neg), prop="C14"))
+        fs = [Field("a", "u16", attrs=[neg % "Hash"], hash={}), Field("b", "u8", attrs=["Hash(ignore)"], hash={"ignore": True}), Field("c", "u8", hash={})]
+        add(Program(c.pid(), "struct", "S", [Variant(None, "named", fs)], ["Hash"], focus={"Hash"}, note="C14 Hash not-ignored spelling `%s`" % neg))
+        fs = [Field("a", "T0", attrs=[neg % "Debug"], debug={}), Field("b", "T0", attrs=["Debug(ignore)"], debug={"ignore": True}), Field("c", "T0", debug={})]
+        add(Program(c.pid(), "struct", "S", [Variant(None, "named", fs)], ["Debug"], generics=["T0"], inst={"T0": "u8"}, focus={"Debug"},
+                    note="C14 Debug not-ignored spelling `%s`" % neg, debug={"name": "default", "named_field": None}))
+    for j, nn in enumerate(["Default(new = false)", "Default(new(false))"]):
+        fs = [Field("a", "u8", attrs=["Default = 4"], default={"src": "4", "expected": "4u8", "verus": True})]
+        P = add(Program(c.pid(), "struct", "S", [Variant(None, "named", fs)], [nn], focus={"Default"}, note="C14 `%s`" % nn, default={"new": False}))
+        P.tags["mk"] = "// no inputs"
     # ---- Hash
     ign = flag_forms("Hash") + ["Hash = false"]
     for i, isp in enumerate(ign):
